@@ -133,7 +133,8 @@ class Harness:
                 r[-1].err = "timeout"          # complete record, the harness stopped itself
                 recs += r
                 i += len(r)
-                ntimeouts += 1
+                # only timeouts in a row count: a sporadic non-terminating program is nothing unusual in a mutated corpus
+                ntimeouts = ntimeouts + 1 if len(r) == 1 else 1
                 if ntimeouts >= 8:
                     # something hangs systematically: the first ones are enough to report, the rest would take hours
                     while len(recs) < len(lines):
